@@ -23,7 +23,18 @@ code -> spec: a seeded random driver builds much longer documents (<= 16 segment
 
 The generated tag blocks (what goes *into* the insertion points) are property C04's business: they
 are calibrated from the real output for a marker-only document, by two independent routes
-(placeholders and default locations) that must agree.
+(placeholders and default locations) that must agree.  Real classes: A (js, css, Media), B (js whose
+text contains `</head>`), C (css whose text contains `</body>`, non-ASCII), D (no assets).
+
+Genuine defects of the current tree are *named deviations* of the layer-B model (DepsInsertImpl):
+a failing call is a KNOWN-FINDING only if the observed result equals, character for character, what
+the model of a tree with exactly these deviations predicts (Trace_C08 picks the smallest explaining
+set; several at once give a composite key joined with `+`):
+  offset    -> body-end-before-head-end:js-offset-shifted
+  multiattr -> placeholder-multi-id-attrs:left-in-place
+  nonutf8   -> non-utf8-bytes:unicode-decode-error
+  blocktag  -> end-tag-inside-generated-block:insertion-lands-in-block
+Anything else (another shape, or another wrong result on the same shape) is a VIOLATION.
 
 Unspecified zones (not alarmed on / not generated):
   * upper-case end tags `</HEAD>`, `</Body >`: the property says "case variants", the docs only show
@@ -42,7 +53,6 @@ import json
 import os
 import random
 import re
-import time
 from typing import Any, Dict, Iterable, List, Optional, Tuple
 
 from . import tlc
@@ -64,8 +74,8 @@ R_MARKER_FULL = re.compile(r"<!-- _RENDERED ([\w]+),(\w{6}),([0-9a-f]*),([0-9a-f
 
 TXT_ASCII = ["alpha", "<div class=\"x\">beta</div>", "gamma delta", "<p>text</p>\n", "  ", "<html><head><title>t</title>",
              "<body id=\"b\">", "<h1>Title</h1>", "x", "<ul><li>1</li></ul>", "<br/>", "<!doctype html>\n"]
-TXT_UNI = ["žluťoučký kůň", "日本語テキスト", "🙂 emoji 𝔘", "é", " nbsp ", "<p>ñandú</p>", "Ω≈ç√∫", "кириллица",
-           "<span title=\"ü\">ï</span>", " ls", "á"]
+TXT_UNI = ["žluťoučký kůň", "日本語テキスト", "🙂 emoji 𝔘", "é", "\u00a0nbsp\u00a0", "<p>ñandú</p>", "Ω≈ç√∫", "кириллица",
+           "<span title=\"ü\">ï</span>", "\u2028ls", "a\u0301"]
 TXT_SPECIAL = ["<", "%", "{% x %}", "{{ y }}", "100% <b", "&amp; &lt;/head&gt;", "\\", "\"'", "<!--", "-->", "<!-- c -->",
                "", "\n", "\t\r\n", "<<>>", "{#c#}", "$1 \\1 \\g<0>", "%s %(a)s {0}", "]]>", "<script>var s='x';</script>"]
 TXT_LOOKALIKE = ["</heads>", "</ head>", "< /head>", "<head>", "<body>", "</header>", "</bodyx>", "</head", "</body",
@@ -82,7 +92,8 @@ END_UC = [("upper", "</%s>"), ("title", "</%s>"), ("upper", "</%s >"), ("swap", 
 
 KEYS = {"offset": "body-end-before-head-end:js-offset-shifted",
         "multiattr": "placeholder-multi-id-attrs:left-in-place",
-        "nonutf8": "non-utf8-bytes:unicode-decode-error"}
+        "nonutf8": "non-utf8-bytes:unicode-decode-error",
+        "blocktag": "end-tag-inside-generated-block:insertion-lands-in-block"}
 
 
 class Calibration(Exception):
@@ -124,11 +135,11 @@ class World:
 
         class VfDepB(Component):
             template = "<span>B</span>"
-            js = "console.log(\"B\");"
+            js = "console.log(\"B\"); frame.srcdoc = \"<html><head></head><body>B</body></html>\";"
 
         class VfDepC(Component):
             template = "<i>C</i>"
-            css = ".vf-c::after{content:\"ž✓\"}"
+            css = ".vf-c::after{content:\"ž✓ </body>\"}"
 
             class Media:
                 css = {"print": ["vf/c-print.css"]}
@@ -182,6 +193,7 @@ class World:
         if not forms[("cssph", "one")] or not forms[("jsph", "one")]:
             raise MachineryError("the placeholder tags render to nothing recognisable")
         self._blocks: Dict[Tuple[str, ...], Tuple[str, str, str]] = {}
+        self.calib_mismatch: List[str] = []
 
     # ---- concrete texts
     def marker(self, label: str, rid: str) -> str:
@@ -198,14 +210,20 @@ class World:
         a = dd.render_dependencies(ms + sep + cssph + sep + jsph + sep).split(sep)
         b = dd.render_dependencies(ms + sep + "</head>" + sep + "</body>" + sep).split(sep)
         frag = dd.render_dependencies(ms, type="fragment")
-        if len(a) != 4 or a[0] or a[3] or len(b) != 4 or b[0] or b[3] or not b[1].endswith("</head>") \
-                or not b[2].endswith("</body>"):
-            raise Calibration(f"blocks not isolated for markers {labels}: {a!r} / {b!r}")
+        if len(a) != 4:
+            raise Calibration(f"blocks not isolated for markers {labels}: {a!r}")
         css, js = a[1], a[2]
-        if (b[1][:-7], b[2][:-7]) != (css, js):
-            raise Calibration(f"blocks at placeholders and at default locations differ for {labels}: {a!r} / {b!r}")
-        if not isinstance(frag, str) or any(R_END.search(x) or R_MARK.search(x) for x in (css, js, frag)):
-            raise Calibration(f"blocks contain end tags / markers for {labels}")
+        if a[0] or a[3] or len(b) != 4 or b[0] or b[3] or (b[1], b[2]) != (css + "</head>", js + "</body>"):
+            # a marker-only document with the two placeholders / with `</head>` and `</body>` must come out
+            # as exactly the two blocks at those places: reported as a violation by core(); the blocks of
+            # the placeholder route are used to carry on
+            self.calib_mismatch.append(f"marker-only document for markers {labels}: with placeholders -> {a!r}, "
+                                       f"with default locations -> {b!r}")
+        if not isinstance(frag, str):
+            raise Calibration(f"fragment block is not a str for markers {labels}: {frag!r}")
+        if any(R_MARK.search(x) or R_CSSPH.search(x) or R_JSPH.search(x) for x in (css, js, frag)):
+            self.calib_mismatch.append(f"generated blocks contain markers / placeholders for markers {labels}: "
+                                       f"{(css, js, frag)!r}")
         self._blocks[labels] = (css, js, frag)
         return self._blocks[labels]
 
@@ -319,15 +337,15 @@ def observe(w: World, segs: List[Dict[str, str]], mode: str, via: str, ity: str,
                 cut = len(body) // 2
                 resp: Any = StreamingHttpResponse(iter([body[:cut], body[cut:]]), content_type=ct)
             else:
-                resp = HttpResponse(body, content_type=ct)
-            before = sorted(resp.items())
+                resp = HttpResponse(body, content_type=ct, status=404 if flavour % 5 == 4 else 200)
+            before = sorted(resp.items()) + [("status", resp.status_code)]
             if flavour % 4 == 3:
                 async def get_response(request):
                     return resp
                 r = asyncio.run(ComponentDependencyMiddleware(get_response)(w.request))
             else:
                 r = ComponentDependencyMiddleware(lambda request: resp)(w.request)
-            obs["same"] = bool(r is resp and sorted(r.items()) == before and r.status_code == 200)
+            obs["same"] = bool(r is resp and sorted(r.items()) + [("status", r.status_code)] == before)
             if isinstance(r, StreamingHttpResponse):
                 o = b"".join(r.streaming_content)
             else:
@@ -414,12 +432,14 @@ def trace_record(w: World, tid: int, segs, mode: str, via: str, ity: str, enc: s
     rec = {"id": tid, "mode": mode, "via": via, "ity": ity if via == "direct" else "bytes",
            "segs": [{"t": s["t"], "v": s["v"], "s": seg_s(s["s"])} for s in segs],
            "css": p.s(css), "js": p.s(js), "frag": p.s(frag),
+           "jsh": [m.start() for m in re.finditer(r"</head\s*>", p.s(js))],
+           "cssb": [m.start() for m in re.finditer(r"</body\s*>", p.s(css))],
            "res": obs["res"], "oty": obs["oty"], "same": bool(obs["same"]), "utf8": utf8,
            "out": "" if out is None else p.s(out) if isinstance(out, (str, bytes)) else repr(out)}
     return rec
 
 
-DEV_ORDER = ["offset", "multiattr", "nonutf8"]
+DEV_ORDER = ["offset", "multiattr", "nonutf8", "blocktag"]
 
 
 def parse_verdicts(r: tlc.TlcResult, n: int, what: str) -> Dict[int, Tuple[str, str]]:
@@ -515,8 +535,7 @@ def mc_cfg(path, maxlen: int, export: bool, refine: bool = True) -> None:
     inv = ["Thm_OnlyDocumentedEdits", "Thm_InsertionsDocumented", "Thm_PlaceholderEquivalence", "Thm_ZoneIsNarrow",
            "Thm_PassThrough"]
     if refine:
-        inv += ["FixedRefines", "OffsetFixRefinesOutsideMulti", "MultiFixRefinesOutsideOffset",
-                "CurrentRefinesExactlyOutsideDeviations"]
+        inv += ["FixedRefines", "RefinesExactlyOutsideDeviations"]
     if export:
         inv.append("Export")
     path.write_text("SPECIFICATION MCSpec\nCONSTANTS\n  MaxLen = %d\n  PhVariants = %s\n%s\n" % (
@@ -692,9 +711,13 @@ def _procs() -> int:
 
 
 def core(chk: Check, maxlen: int, rounds: int, ntraces: int) -> None:
-    World.get()._blocks.clear()        # blocks are re-calibrated from the code as it is now
+    w = World.get()
+    w._blocks.clear()                  # blocks are re-calibrated from the code as it is now
+    w.calib_mismatch.clear()
     model_check_and_replay(chk, maxlen, rounds, _procs())
     validate_random(chk, ntraces)
+    for msg in w.calib_mismatch[:5]:
+        chk.violation({"kind": "calibration"}, msg)
 
 
 def run(tier: str) -> int:
@@ -708,7 +731,7 @@ def run(tier: str) -> int:
 
     def design() -> None:
         try:
-            refinement(side, 4 if quick else 6, workers=min(4, _procs()))
+            refinement(side, 4 if quick else 5, workers=min(4, _procs()))
         except BaseException as e:  # re-raised in the main thread
             err.append(e)
     th = threading.Thread(target=design)
@@ -924,6 +947,44 @@ def selftest(tier: str) -> int:
 
     ph = dd.PLACEHOLDER_REGEX.pattern.decode()
     cm = dd.COMPONENT_COMMENT_REGEX.pattern.decode()
+
+    class SubOnce:
+        """PLACEHOLDER_REGEX whose sub() replaces only the first placeholder of each kind."""
+        def __init__(self, rx):
+            self.rx, self.pattern = rx, rx.pattern
+
+        def sub(self, fn, content):
+            seen = set()
+
+            def f(m):
+                kind = b"CSS" if b"CSS_PLACEHOLDER" in m[0] else b"JS"
+                if kind in seen:
+                    return m[0]
+                seen.add(kind)
+                return fn(m)
+            return self.rx.sub(f, content)
+
+        def __getattr__(self, name):
+            return getattr(self.rx, name)
+
+    class HarvestDeduped:
+        """COMPONENT_COMMENT_REGEX whose sub() leaves the 2nd, 3rd .. marker of a class in the text."""
+        def __init__(self, rx):
+            self.rx, self.pattern = rx, rx.pattern
+
+        def sub(self, fn, content):
+            seen = set()
+
+            def f(m):
+                cls = m.group("data").split(b",")[0]
+                if cls in seen:
+                    return m[0]
+                seen.add(cls)
+                return fn(m)
+            return self.rx.sub(f, content)
+
+        def __getattr__(self, name):
+            return getattr(self.rx, name)
     probes = [
         ("css-before-LAST-head", insert_variant(pick_head="last")),
         ("js-before-FIRST-body", insert_variant(pick_body="first")),
@@ -935,6 +996,8 @@ def selftest(tier: str) -> int:
         ("placeholder-regex-loose-name", regex("PLACEHOLDER_REGEX", ph.replace('CSS_PLACEHOLDER"', 'CSS_PLACEHOLDER\\w*"').encode())),
         ("marker-regex-eats-trailing-newline", regex("COMPONENT_COMMENT_REGEX", (cm + r"\n?").encode())),
         ("marker-regex-without-underscore", regex("COMPONENT_COMMENT_REGEX", cm.replace("_RENDERED", "_?RENDERED").encode())),
+        ("only-first-placeholder-replaced", lambda: patch(dd, "PLACEHOLDER_REGEX", SubOnce(dd.PLACEHOLDER_REGEX))),
+        ("repeated-marker-of-a-class-left-in-text", lambda: patch(dd, "COMPONENT_COMMENT_REGEX", HarvestDeduped(dd.COMPONENT_COMMENT_REGEX))),
         ("end-tag-regex-matches-heads", regex("head_or_body_end_tag_re", r"<\/(?:head|body)\w*\s*>")),
         ("str-always-marked-safe", wrap_rd(lambda c, o, t: mark_safe(o) if isinstance(o, str) else o)),
         ("safestring-loses-safety", wrap_rd(lambda c, o, t: str.__str__(o) + "" if isinstance(o, SafeString) else o)),
@@ -954,14 +1017,19 @@ def selftest(tier: str) -> int:
     ok = ok and rc == 0
 
     # ---- (iii) neutral variants: code that satisfies the property must not be alarmed on
+    F = {"offset": "C08-body-end-before-head-end:js-offset-shifted.diff",
+         "multiattr": "C08-placeholder-multi-id-attrs:left-in-place.diff",
+         "nonutf8": "C08-non-utf8-bytes:unicode-decode-error.diff",
+         "blocktag": "C08-end-tag-inside-generated-block:insertion-lands-in-block.diff",
+         "blocktag2": "C08-end-tag-inside-generated-block:insertion-lands-in-block.after-non-utf8-fix.diff"}
+    # (the offset repair comes first: the layer-B model of the offset defect is the arithmetic of the current tree)
     neutral = [
-        ("proposed-fix offset", _patched_tree(["C08-body-end-before-head-end:js-offset-shifted.diff"]), ["offset"]),
-        ("proposed-fix multi-id placeholder", _patched_tree(["C08-placeholder-multi-id-attrs:left-in-place.diff"]), ["multiattr"]),
-        ("proposed-fix non-utf8 bytes", _patched_tree(["C08-non-utf8-bytes:unicode-decode-error.diff"]), ["nonutf8"]),
-        ("all three proposed fixes", _patched_tree(["C08-body-end-before-head-end:js-offset-shifted.diff",
-                                                    "C08-placeholder-multi-id-attrs:left-in-place.diff",
-                                                    "C08-non-utf8-bytes:unicode-decode-error.diff"]),
-         ["offset", "multiattr", "nonutf8"]),
+        ("proposed fix: offset", _patched_tree([F["offset"]]), ["offset"]),
+        ("proposed fix: multi-id placeholder", _patched_tree([F["multiattr"]]), ["multiattr"]),
+        ("proposed fixes: offset + non-utf8 bytes", _patched_tree([F["offset"], F["nonutf8"]]), ["offset", "nonutf8"]),
+        ("proposed fixes: offset + end tag inside block", _patched_tree([F["offset"], F["blocktag"]]), ["offset", "blocktag"]),
+        ("all four proposed fixes", _patched_tree([F["offset"], F["multiattr"], F["nonutf8"], F["blocktag2"]]),
+         ["offset", "multiattr", "nonutf8", "blocktag"]),
     ]
     all_fixed = neutral[-1][1]
 
@@ -971,13 +1039,13 @@ def selftest(tier: str) -> int:
             with _ci_end_tags(dd, patch):
                 yield
     neutral.append(("all fixes + upper-case end tags recognised (the other reading of the zone)", fixed_and_ci,
-                    ["offset", "multiattr", "nonutf8"]))
+                    ["offset", "multiattr", "nonutf8", "blocktag"]))
     for name, cmf, gone in neutral:
         chk = Check(PID, "quick", "other", silent=True)
         with cmf():
             body(chk)
         devs = {k: v for k, v in chk.cov.items() if k.startswith("dev:")}
-        left = [g for g in (gone or []) if any(KEYS[g] in k for k in devs)]
+        left = [g for g in (gone or []) if any(KEYS[g] in k.split(":", 1)[1].split("+") for k in devs)]
         state = "clean" if chk.violations == 0 and not left else "ALARMED"
         print(f"  neutral {name}: {state} (violations={chk.violations}, deviations still seen={sorted(devs)})")
         ok = ok and state == "clean"
